@@ -14,16 +14,22 @@ import (
 // over-approximation of feasible paths (no arithmetic, no aliasing); it only removes paths that test
 // the same value twice with contradictory results (`if r == A || r == B {...}; if r == A {...}`).
 func ReachFacts(fn *ssa.Function, starts []Point, targets, cuts *Set) []Hit {
+	return ReachFactsF(fn, starts, targets, cuts, nil)
+}
+
+// FactQuery answers what a path has established about a boolean SSA value.
+type FactQuery func(v ssa.Value) (val, known bool)
+
+// ReachFactsF is ReachFacts with a target filter: a target instruction met on a path is reported only if
+// accept (when non-nil) returns true for the facts established on that path.  Facts are carried through
+// phis (the operand of the edge taken: a constant, a value with known facts, or an untested comparison
+// `v == c` whose outcome the path's facts about v decide).
+func ReachFactsF(fn *ssa.Function, starts []Point, targets, cuts *Set, accept func(in ssa.Instruction, q FactQuery) bool) []Hit {
 	if len(fn.Blocks) == 0 {
 		return nil
 	}
 	if cuts == nil {
 		cuts = NewSet()
-	}
-	type fact struct {
-		v  ssa.Value
-		c  string // constant (ExactString) or "" for a boolean value itself
-		eq bool
 	}
 	type item struct {
 		p      Point
@@ -47,6 +53,7 @@ func ReachFacts(fn *ssa.Function, starts []Point, targets, cuts *Set) []Hit {
 		}
 		return strings.Join(parts, ",") + "|" + string(rune('0'+b.Index%10)) + "#" + itoa(b.Index) + "<" + itoa(fi)
 	}
+	needed := neededFactValues(fn, accept != nil)
 	var q []item
 	if starts == nil {
 		starts = []Point{{fn.Blocks[0], 0}}
@@ -124,7 +131,11 @@ func ReachFacts(fn *ssa.Function, starts []Point, targets, cuts *Set) []Hit {
 		}
 		return false
 	}
-	for qi := 0; qi < len(q) && qi < 200000; qi++ {
+	for qi := 0; qi < len(q); qi++ {
+		if qi >= 200000 {
+			ReachTruncated++
+			break
+		}
 		it := q[qi]
 		b := it.p.B
 		forced := -1
@@ -146,24 +157,40 @@ func ReachFacts(fn *ssa.Function, starts []Point, targets, cuts *Set) []Hit {
 			// boolean phis: the operand for the edge we came in on may be a constant, or a value whose
 			// truth is already known on this path (nested `a && (b || c)` value phis)
 			if it.from != nil {
+				base := it.facts // phis are evaluated in parallel: operands are looked up in the facts before any phi of this block
 				for _, in := range b.Instrs {
 					phi, ok := in.(*ssa.Phi)
 					if !ok {
 						break
 					}
+					if !needed[phi] {
+						continue
+					}
 					for k, p := range b.Preds {
-						if p != it.from || len(it.facts) >= 10 {
+						if p != it.from || len(it.facts) >= 24 {
 							continue
 						}
 						op := phi.Edges[k]
 						if cst, ok := op.(*ssa.Const); ok && cst.Value != nil && (cst.Value.ExactString() == "true" || cst.Value.ExactString() == "false") {
-							it.facts = append(append([]fact{}, it.facts...), fact{phi, "", cst.Value.ExactString() == "true"})
+							it.facts = addFacts(it.facts, fact{phi, "", cst.Value.ExactString() == "true"})
+						} else if cst, ok := op.(*ssa.Const); ok {
+							cs := "nil"
+							if cst.Value != nil {
+								cs = cst.Value.ExactString()
+							}
+							it.facts = addFacts(it.facts, fact{phi, cs, true})
+						} else if tv, known := evalCmp(op, func(v ssa.Value, c string) (bool, bool) { return lookupFact(base, v, c) }); known {
+							it.facts = addFacts(it.facts, fact{phi, "", tv})
 						} else {
-							for _, f := range it.facts {
-								if f.v == op && f.c == "" {
-									it.facts = append(append([]fact{}, it.facts...), fact{phi, "", f.eq})
-									break
+							// every fact about the operand holds for the phi on this edge
+							var add []fact
+							for _, f := range base {
+								if f.v == op {
+									add = append(add, fact{phi, f.c, f.eq})
 								}
+							}
+							if len(add) > 0 {
+								it.facts = addFacts(it.facts, add...)
 							}
 						}
 						break
@@ -181,7 +208,12 @@ func ReachFacts(fn *ssa.Function, starts []Point, targets, cuts *Set) []Hit {
 		stopped := false
 		for i := it.p.I; i < len(b.Instrs); i++ {
 			in := b.Instrs[i]
-			if targets.I[in] && !hitI[in] {
+			if targets.I[in] && !hitI[in] && (accept == nil || accept(in, func(v ssa.Value) (bool, bool) {
+				if tv, known := evalCmp(v, func(x ssa.Value, c string) (bool, bool) { return lookupFact(it.facts, x, c) }); known {
+					return tv, true
+				}
+				return lookupFact(it.facts, v, "")
+			})) {
 				hitI[in] = true
 				hits = append(hits, Hit{Instr: in, Path: pathOf(qi)})
 			}
@@ -211,8 +243,8 @@ func ReachFacts(fn *ssa.Function, starts []Point, targets, cuts *Set) []Hit {
 				continue
 			}
 			nf := it.facts
-			if f != nil && len(nf) < 8 {
-				nf = append(append([]fact{}, it.facts...), *f)
+			if f != nil && len(nf) < 20 && needed[f.v] {
+				nf = addFacts(it.facts, *f)
 			}
 			q = append(q, item{Point{b.Succs[si], 0}, qi, b, nf})
 		}
@@ -233,4 +265,196 @@ func itoa(i int) string {
 		i /= 10
 	}
 	return s
+}
+
+type fact struct {
+	v  ssa.Value
+	c  string // constant (ExactString) or "" for a boolean value itself
+	eq bool
+}
+
+// lookupFact: is `v == c` (or, for c == "", the boolean v) decided by the facts?
+func lookupFact(fs []fact, v ssa.Value, c string) (val, known bool) {
+	for _, g := range fs {
+		if g.v != v {
+			continue
+		}
+		if g.c == c {
+			return g.eq, true
+		}
+		if c != "" && g.c != "" && g.eq {
+			return false, true // v == other constant
+		}
+	}
+	return false, false
+}
+
+// evalCmp decides an untested comparison `x == c` / `x != c` from what is known about x.
+func evalCmp(v ssa.Value, look func(x ssa.Value, c string) (bool, bool)) (val, known bool) {
+	bo, ok := v.(*ssa.BinOp)
+	if !ok || (bo.Op != token.EQL && bo.Op != token.NEQ) {
+		return false, false
+	}
+	var x ssa.Value
+	var k *ssa.Const
+	if kc, ok := bo.Y.(*ssa.Const); ok {
+		x, k = bo.X, kc
+	} else if kc, ok := bo.X.(*ssa.Const); ok {
+		x, k = bo.Y, kc
+	}
+	if k == nil {
+		return false, false
+	}
+	cs := "nil"
+	if k.Value != nil {
+		cs = k.Value.ExactString()
+	}
+	eq, known := look(x, cs)
+	if !known {
+		return false, false
+	}
+	if bo.Op == token.NEQ {
+		eq = !eq
+	}
+	return eq, true
+}
+
+// Unspill resolves a return operand that was spilled to a local because the function has defers:
+// `store t0 <- v; rundefers; r = *t0; return r` yields v when the store is in the return's block and
+// no closure writes the local.  Otherwise the operand itself is returned.
+func Unspill(ret *ssa.Return, i int) ssa.Value {
+	r := ret.Results[i]
+	ld, ok := r.(*ssa.UnOp)
+	if !ok || ld.Op != token.MUL {
+		return r
+	}
+	a, ok := ld.X.(*ssa.Alloc)
+	if !ok {
+		return r
+	}
+	for _, ref := range *a.Referrers() {
+		switch x := ref.(type) {
+		case *ssa.Store, *ssa.UnOp:
+		case *ssa.MakeClosure:
+			return r // a (deferred) literal may rewrite the result
+		default:
+			_ = x
+			return r
+		}
+	}
+	b := ret.Block()
+	var last ssa.Value
+	for _, in := range b.Instrs {
+		if in == ssa.Instruction(ld) {
+			break
+		}
+		if st, ok := in.(*ssa.Store); ok && st.Addr == ssa.Value(a) {
+			last = st.Val
+		}
+	}
+	if last == nil {
+		return r
+	}
+	return last
+}
+
+// addFacts returns a fresh slice holding fs and the facts of add not already in it.
+func addFacts(fs []fact, add ...fact) []fact {
+	out := append([]fact{}, fs...)
+	for _, a := range add {
+		dup := false
+		for _, g := range out {
+			if g == a {
+				dup = true
+				break
+			}
+		}
+		if !dup {
+			out = append(out, a)
+		}
+	}
+	return out
+}
+
+// ReachTruncated counts searches abandoned at the state cap; a caller that relies on "no hit" must treat a
+// change of this counter across its call as undecided.
+var ReachTruncated int
+
+// neededFactValues: the SSA values about which a remembered outcome can ever prune an edge or decide a
+// filtered target: values tested by two or more branches, phis that are tested (their operands' facts flow
+// into them), returned values (when a target filter is in use), and — transitively — the operands of needed
+// phis and the compared operand of needed comparisons.  Facts about any other value are never recorded,
+// which keeps the (block, facts) state space small.
+func neededFactValues(fn *ssa.Function, withReturns bool) map[ssa.Value]bool {
+	tested := map[ssa.Value]int{}
+	subject := func(c ssa.Value) ssa.Value {
+		if u, ok := c.(*ssa.UnOp); ok && u.Op == token.NOT {
+			c = u.X
+		}
+		if bo, ok := c.(*ssa.BinOp); ok && (bo.Op == token.EQL || bo.Op == token.NEQ) {
+			if _, ok := bo.Y.(*ssa.Const); ok {
+				return bo.X
+			}
+			if _, ok := bo.X.(*ssa.Const); ok {
+				return bo.Y
+			}
+			return nil
+		}
+		return c
+	}
+	need := map[ssa.Value]bool{}
+	var work []ssa.Value
+	add := func(v ssa.Value) {
+		if v == nil || need[v] {
+			return
+		}
+		if _, ok := v.(*ssa.Const); ok {
+			return
+		}
+		need[v] = true
+		work = append(work, v)
+	}
+	for _, b := range fn.Blocks {
+		if len(b.Instrs) == 0 {
+			continue
+		}
+		switch x := b.Instrs[len(b.Instrs)-1].(type) {
+		case *ssa.If:
+			if v := subject(x.Cond); v != nil {
+				tested[v]++
+			}
+		case *ssa.Return:
+			if withReturns {
+				for i := range x.Results {
+					add(Unspill(x, i))
+				}
+			}
+		}
+	}
+	for v, n := range tested {
+		if _, isPhi := v.(*ssa.Phi); n >= 2 || isPhi {
+			add(v)
+		}
+	}
+	for len(work) > 0 {
+		v := work[len(work)-1]
+		work = work[:len(work)-1]
+		switch x := v.(type) {
+		case *ssa.Phi:
+			for _, e := range x.Edges {
+				add(e)
+			}
+		case *ssa.BinOp:
+			if x.Op == token.EQL || x.Op == token.NEQ {
+				if s := subject(x); s != nil {
+					add(s)
+				}
+			}
+		case *ssa.UnOp:
+			if x.Op == token.NOT {
+				add(x.X)
+			}
+		}
+	}
+	return need
 }
